@@ -50,5 +50,68 @@ CHECKS.update({
               "all five macros over every list of length 0-4/0-6 from a 3-symbol alphabet and maps with 0-4 keys, "
               "with pure, raising, logging and nested bodies"),
 })
-NOT_APPLICABLE = {p: "check not built yet in this session (work in progress; the runtime-monitoring "
-                     "design for it is in DESIGN.md §6)" for p in ALL if p not in CHECKS}
+
+CHECKS.update({
+    "C02": _c("runtime monitoring: totality monitor (value or error; panic via catch_unwind, abort / stack overflow via "
+              "process death, hang via watchdog) over generated programs on hostile contexts; exhaustive value-pair sweep "
+              "under every operator (the repository's unused fuzz target made deterministic)",
+              "every execution / direct Value operator call is observed for panic, abort and hang; ~150-value hostile "
+              "pool squared under 12 direct operators and inside programs, every built-in on every pool value in both "
+              "call styles, indexing sweep, random untyped programs of depth <= 8; ASan replay in the thorough tier"),
+    "C05": _c("runtime monitoring: invariant monitors on hooked state (context snapshots, Arc identity through weak "
+              "handles, reference-count conservation, earlier results) over sequential histories; solo-equality oracle "
+              "over recorded concurrent histories (tickets from one atomic clock); TSan + Miri in the thorough tier",
+              "after every execution of a history the context, buffers, counts, earlier values and program are "
+              "re-observed and the result is compared with a re-run, a fresh-context run and a solo run in a fresh "
+              "thread; 2-16 threads share programs and a root context with seeded yields, every result must equal its "
+              "solo result; Send + Sync is compiled as a precondition"),
+    "C09": _c("runtime monitoring: coherence-law checker + exact-comparison oracle (Python int/float) over the recorded "
+              "pair table; offline transitivity check over all triples",
+              "all ordered pairs of a ~107-value boundary set under six relations, `in`, Value::eq / partial_cmp; "
+              "trichotomy, negation, converse, transitivity, congruence, reflexivity through a shared reference, "
+              "min / max over sub-multisets"),
+    "C11": _c("runtime monitoring: stack-of-dictionaries model checked against lookups after every step of enumerated "
+              "scope histories; lexically scoped reference evaluator for macro programs with re-read of all bindings",
+              "every define / open / close history of length <= 6/8 over 3 names and 3 levels, lookups through "
+              "get_variable and one-identifier programs, parent re-observed after each close; programs nesting macros "
+              "whose variables shadow context variables; variable / function name sharing"),
+    "C12": _c("runtime monitoring: encoder / decoder oracle (CEL-spec literal encoder in Python; expected value = the "
+              "string the encoder started from) over executed one-literal programs; exhaustive escape sweep",
+              "all \\x, \\OOO, \\u (sampled in quick), \\U boundaries, single-character escapes in four quotings, raw "
+              "and bytes forms, invalid escapes must be compile errors; three recorded known findings (C12-F1..F3)"),
+    "C13": _c("runtime monitoring: reference-model oracle (Python ints / floats) over executed literals and conversion "
+              "calls; boundary sweep in every literal form + random 64-bit patterns",
+              "in-range literal => exactly that number, out-of-range => compile error; int / uint / double / string / "
+              "bytes conversions exact or error (never saturated / NaN-derived); bit-exact string round trips"),
+    "C14": _c("runtime monitoring: dictionary-model oracle over every access path (in, contains, index, select, has) "
+              "of enumerated maps and lists; additive laws from observed values",
+              "all maps with <= 4 keys over a 12-key mixed alphabet queried with every key and int/uint twin (incl. "
+              "wrap-around aliases) as literal and variable; all lists <= 5 with indices -2..len+1 and i64 extremes; "
+              "concatenation order / size / operand integrity"),
+    "C15": _c("runtime monitoring: reference-model oracle (port of Go Duration.String / exact decimal ParseDuration on "
+              "Python ints) over executed duration programs with host-supplied durations; mutation grammar",
+              "canonical rendering, print/parse round trip, exact + - and comparisons with overflow as error on "
+              "boundary pairs and log-uniform random counts; malformed strings must be rejected"),
+    "C16": _c("runtime monitoring: reference-model oracle (proleptic-Gregorian civil-from-days on Python ints, "
+              "cross-checked with datetime) over executed timestamp programs",
+              "all ten accessors, string round trip, instant comparisons across offsets, t+d, t-d, (t+d)-t, t1-t2 on "
+              "boundary dates x times x offsets (15-minute grid in thorough) and random instants"),
+    "C17": _c("runtime monitoring: shape-map oracle + commutation with serde_json (reference serialisation) over "
+              "recorded to_value / add_variable conversions driven by an interpreter of the serde data model",
+              "every Serializer / KeySerializer method incl. 128-bit and rejected key kinds; never a panic, converted "
+              "value equals the serde shape, JSON-representable data commutes with serde_json"),
+    "C18": _c("runtime monitoring: expected-document oracle + round-trip check over recorded Value::json() exports of "
+              "hostile generated values",
+              "arrays / objects keyed by key text (either value on collisions) / padded base64 / RFC 3339 / integer "
+              "nanoseconds / null for non-finite; Err (never panic) for functions and out-of-range durations; "
+              "re-import equal for JSON-native originals"),
+    "C19": _c("runtime monitoring: coverage / completeness / occurrence laws over recorded references() reports and "
+              "execution outcomes of generated programs in two contexts each",
+              "undeclared-reference errors must name a reported reference; with every reported reference defined no "
+              "such error occurs; reported variables occur in the source; no '@' names; report stable across runs"),
+    "C20": _c("runtime monitoring: call-style equality over built-ins on the hostile pool, and a signature model of a "
+              "typed host-function catalogue checked against the typed argument log",
+              "x.f(args) vs f(x, args) for 19 built-ins x pool; arity 0-9 host functions of every extractor kind with "
+              "0..arity+2 matching / mismatching arguments; overrides of built-in names"),
+})
+NOT_APPLICABLE = {}
